@@ -576,6 +576,7 @@ func init() {
 		r.importing = "C05"
 		checkLookupArgs(r, prog, a, a.MatchEval, "c05")
 		checkLookupArgs(r, prog, a, a.CollEval, "c05")
+		checkValueLookup(r, prog, a, "c05") // one lookup, with the path parts as they are (no retry under another spelling of the parts)
 		r.importing = ""
 		r.Technique = "typed-AST analysis of the grammar actions that produce path parts (offset rule: bytes dropped = length of the production's leading literal; pass-through and whole-match forms only), of the JSON-pointer action (pointerstructure.Parse wiring), rule-reference identity for every selector label; field-read / call census in package bexpr (spelling-blindness, no normalisation)"
 		r.Explain = "Decides: evaluation consumes Selector.Path only (no read of Selector.Type in package bexpr; a selector's text feeds error messages only; both consumers pass exactly Selector.Path to the lookup); every action whose value can become a path part returns the matched text, the matched text minus exactly the one-byte separator that starts its production, a passed-through label, or the unquoted string literal of the bracket form — no trimming, case folding or numeric normalisation; the JSON-pointer action joins its segments with '/', prefixes '/', hands that to pointerstructure.Parse, replaces Path by the parsed Parts and returns a parse error; all selector labels reference one and the same rule (so quantified collections and bodies use the same production). NOT decided: pointerstructure.Parse's RFC 6901 unescaping and pointerstructure's exact matching of parts against keys/fields (read, trusted)."
@@ -672,7 +673,7 @@ func scanDatumInspection(prog *Program, fns []*ssa.Function, cmp map[*ssa.Functi
 						continue
 					}
 					switch callee.Name() {
-					case "Sprint", "Sprintf", "Sprintln", "Fprint", "Fprintf", "Fprintln", "Append", "Appendf", "Appendln":
+					case "Sprint", "Sprintf", "Sprintln", "Fprint", "Fprintf", "Fprintln", "Append", "Appendf", "Appendln", "Errorf":
 					default:
 						continue
 					}
@@ -751,6 +752,33 @@ func checkNoStructBypass(r *Run, prog *Program, a *Anchors, pfx string) {
 		ci := scanDatumInspection(prog, ctl, nil)
 		r.Check(pfx+".positive-control", "c08pos:inspection", "/verif/checker/testdata/c08pos/pos.go", len(ci) >= 3, fmt.Sprintf("the datum-inspection rule matched only %d of the ≥3 constructs of its positive-control package: %v", len(ci), ci))
 	}
+	checkSingleGateway(r, prog, a, pfx)
+	// structs are never operands
+	kt := buildKindTables(prog, a)
+	r.Check(pfx+".struct-not-an-operand", "equality-table", prog.pos(a.EqTable.Pos()), kt.eq[kStruct] == nil, "the equality table has a comparator for Struct")
+}
+
+// loadControl loads /verif/checker/testdata/<name> (stdlib only) and returns its functions.
+func loadControl(prog *Program, name string) []*ssa.Function {
+	dir := verifHome() + "/checker/testdata/" + name
+	cfg := &packages.Config{Mode: packages.LoadAllSyntax, Dir: dir, Env: loadEnv("", "")}
+	pkgs, err := packages.Load(cfg, ".")
+	if err != nil || len(pkgs) != 1 || len(pkgs[0].Errors) > 0 {
+		return nil
+	}
+	sp, spkgs := ssautil.AllPackages(pkgs, 0)
+	sp.Build()
+	var out []*ssa.Function
+	for _, m := range spkgs[0].Members {
+		if f, ok := m.(*ssa.Function); ok {
+			out = append(out, f)
+		}
+	}
+	return out
+}
+
+// checkSingleGateway: the only calls into pointerstructure are Pointer.Get, Pointer.String, Pointer.Parent and Parse.
+func checkSingleGateway(r *Run, prog *Program, a *Anchors, pfx string) {
 	// single gateway into pointerstructure
 	// Parent: the same pointer (same Config) without its last part — it reads nothing from a datum
 	allowed := map[string]bool{"Get": true, "String": true, "Parse": true, "Parent": true}
@@ -778,26 +806,4 @@ func checkNoStructBypass(r *Run, prog *Program, a *Anchors, pfx string) {
 		}
 	}
 	r.Check(pfx+".single-gateway", "Get-used", "", seen["Get"], "no call to pointerstructure.Pointer.Get found")
-	// structs are never operands
-	kt := buildKindTables(prog, a)
-	r.Check(pfx+".struct-not-an-operand", "equality-table", prog.pos(a.EqTable.Pos()), kt.eq[kStruct] == nil, "the equality table has a comparator for Struct")
-}
-
-// loadControl loads /verif/checker/testdata/<name> (stdlib only) and returns its functions.
-func loadControl(prog *Program, name string) []*ssa.Function {
-	dir := verifHome() + "/checker/testdata/" + name
-	cfg := &packages.Config{Mode: packages.LoadAllSyntax, Dir: dir, Env: loadEnv("", "")}
-	pkgs, err := packages.Load(cfg, ".")
-	if err != nil || len(pkgs) != 1 || len(pkgs[0].Errors) > 0 {
-		return nil
-	}
-	sp, spkgs := ssautil.AllPackages(pkgs, 0)
-	sp.Build()
-	var out []*ssa.Function
-	for _, m := range spkgs[0].Members {
-		if f, ok := m.(*ssa.Function); ok {
-			out = append(out, f)
-		}
-	}
-	return out
 }
